@@ -333,6 +333,16 @@ func (fr *frame) callStringMethod(x iface, name string) (string, bool) {
 func (fr *frame) sprintf(format value, args []value) value {
 	f, ok := format.(string)
 	if !ok {
+		// a format with symbolic bytes: if no byte can be (or is decided not to
+		// be) a '%' and there are no operands, the result is the format itself
+		if ss, isSym := format.(symstr); isSym && len(args) == 0 {
+			for _, b := range ss.b {
+				if fr.p.truth(fr.p.byteEq(b, uint8('%'))) {
+					panic(unsupported("fmt verb in a symbolic format string"))
+				}
+			}
+			return format
+		}
 		return "<fmt>"
 	}
 	var sb strings.Builder
